@@ -3,6 +3,7 @@ Model: coq/Dialect.v (role-tagged token view of Terms.render / Query.rquery, cla
 coq/lemmas/Dialect*.v, statement coq/props/C07.v.  Class constants are regenerated into gen/QueryTable.v on every run."""
 import copy
 import json
+import random
 import re
 
 from harness import queries_family as qf
@@ -86,9 +87,122 @@ def kw_coq(kw):
     return "{| kw_q := %s; kw_rest := %s |}" % (q, rest)
 
 
+# ---- construction-time keyword arguments ("ckw") ------------------------------------------------------------------
+# A (sub-)statement dict may carry "ckw": {"as_keyword": true, "dialect": "MYSQL", "via": "entry" | "builder"}: the statement
+# is then STARTED with these keyword arguments, through the entry point the spec calls first (Q.from_ / Q.with_ / Q.select /
+# Q.into / Q.update, all of which forward **kwargs) or through Q._builder(**kwargs).  What is asked for is filtered per class
+# (ClickHouse already passes as_keyword=True itself, only the generic Query accepts dialect=); the EXPECTED conventions are
+# computed from the request (outer_ckw), never read back off the built object.
+CKW_ENTRIES = ("from_", "with_", "select", "into", "update")
+CKW_DIALECTS = ["MYSQL", "ORACLE", "MSSQL", "VERTICA", "SQLLITE", "SNOWFLAKE", "CLICKHOUSE"]   # not the ARRAY[ ones (no model)
+CLS_DEFAULT_AS = {"ClickHouseQuery"}       # classes whose _builder passes as_keyword=True itself
+CLS_TAKES_DIALECT = {"Query"}
+
+
+def ckw_effective(cls_name, ckw):
+    out = {}
+    if not ckw:
+        return out
+    if ckw.get("as_keyword") and cls_name not in CLS_DEFAULT_AS:
+        out["as_keyword"] = True
+    if ckw.get("dialect") and cls_name in CLS_TAKES_DIALECT:
+        out["dialect"] = ckw["dialect"]
+    return out
+
+
+def outer_ckw(spec):
+    """the construction-time request that governs the whole statement: that of the outermost builder (for a set operation
+    its base query, whose defaults the operation takes)"""
+    s = spec
+    if s["k"] == "set":
+        s = s["base"]
+        if s["k"] != "sel":
+            return {}
+    return ckw_effective(s["cls"], s.get("ckw"))
+
+
+def strip_ckw(spec):
+    s = copy.deepcopy(spec)
+
+    def walk(x):
+        if isinstance(x, dict):
+            x.pop("ckw", None)
+            for v in x.values():
+                walk(v)
+        elif isinstance(x, list):
+            for v in x:
+                walk(v)
+    walk(s)
+    return s
+
+
+def has_ckw(spec):
+    return '"ckw"' in json.dumps(spec)
+
+
+class _Lazy:
+    """a statement of class Q that is started by the first builder call made on it"""
+
+    def __init__(self, Q, kw, via):
+        self.__dict__.update(_Q=Q, _kw=kw, _via=via)
+
+    def __getattr__(self, name):
+        Q, kw = self._Q, self._kw
+        if self._via == "entry" and name in CKW_ENTRIES:
+            return lambda *a: getattr(Q, name)(*a, **kw)
+        return getattr(Q._builder(**kw), name)
+
+
+class _KwQ:
+    """stands in for a query class inside queries_family.build_query: every way of starting a statement gets the kwargs"""
+
+    def __init__(self, Q, kw, via):
+        self._lazy = lambda: _Lazy(Q, kw, via)
+
+    def _builder(self):
+        return self._lazy()
+
+    def into(self, t):
+        return self._lazy().into(t)
+
+    def update(self, t):
+        return self._lazy().update(t)
+
+
+def build(spec):
+    """queries_family.build_query, with the "ckw" of every (sub-)statement applied where that statement is started"""
+    if not has_ckw(spec):
+        return qf.build_query(spec)
+    from pypika.enums import Dialects
+    orig_bq, orig_qc = qf.build_query, qf.qclass
+
+    def bq(s):
+        eff = ckw_effective(s["cls"], s.get("ckw")) if s.get("k") != "set" else {}
+        if not eff:
+            return orig_bq(s)
+        kw = dict(eff)
+        if "dialect" in kw:
+            kw["dialect"] = getattr(Dialects, kw["dialect"])
+        via = s["ckw"].get("via", "entry")
+
+        def once(name):          # build_query resolves the class of `s` before it builds anything below it
+            qf.qclass = orig_qc
+            return _KwQ(orig_qc(name), kw, via)
+        qf.qclass = once
+        try:
+            return orig_bq(s)
+        finally:
+            qf.qclass = orig_qc
+    qf.build_query = bq
+    try:
+        return bq(spec)
+    finally:
+        qf.build_query, qf.qclass = orig_bq, orig_qc
+
+
 def render(spec, kw=None):
     try:
-        q = qf.build_query(spec)
+        q = build(spec)
         return str(q) if kw is None else q.get_sql(**kw_python(kw))
     except Exception as e:  # noqa
         return "!" + type(e).__name__
@@ -97,7 +211,7 @@ def render(spec, kw=None):
 def rerender(spec):
     """the SAME statement object rendered by str(), then under foreign explicit conventions, then by str() again"""
     try:
-        q = qf.build_query(spec)
+        q = build(spec)
         a = str(q)
         q.get_sql(quote_char="`", secondary_quote_char='"', alias_quote_char="`", as_keyword=True)
         q.get_sql(quote_char=None)
@@ -200,7 +314,44 @@ def gen_cases(rng, tier):
         out.append({"spec": spec, "relabel": rng.choice(CLS_NAMES), "kw": None})
         if rng.random() < 0.5:
             out.append({"spec": spec, "relabel": rng.choice([None, None, rng.choice(CLS_NAMES)]), "kw": gen_kw(rng)})
+        # the same statement with (sub-)statements STARTED with as_keyword=True / dialect=...; own PRNG keyed by the spec, so
+        # the stream above (and with it every case generated before this dimension existed) is unchanged
+        crng = random.Random("ckw-" + json.dumps(spec, sort_keys=True))
+        if crng.random() < 0.6:
+            out.append({"spec": add_ckw(spec, crng), "relabel": crng.choice([None, None, crng.choice(CLS_NAMES)]), "kw": None})
     return out
+
+
+def gen_ckw(rng, p_as):
+    ckw = {"via": rng.choice(["entry", "entry", "builder"])}
+    if rng.random() < p_as:
+        ckw["as_keyword"] = True
+    if rng.random() < 0.35:
+        ckw["dialect"] = rng.choice(CKW_DIALECTS)
+    return ckw if len(ckw) > 1 else None
+
+
+def add_ckw(spec, rng):
+    """construction-time kwargs on the outermost builder (mostly as_keyword=True) and on about half of the sub-statements"""
+    s = copy.deepcopy(spec)
+    top = s["base"] if s["k"] == "set" else s
+
+    def walk(x):
+        if isinstance(x, dict):
+            if "cls" in x and x.get("k") in ("sel", "ins", "upd", "del"):
+                ckw = gen_ckw(rng, 0.8) if x is top else (gen_ckw(rng, 0.7) if rng.random() < 0.5 else None)
+                if ckw:
+                    x["ckw"] = ckw
+            for key in sorted(x):
+                if key != "ckw":
+                    walk(x[key])
+        elif isinstance(x, list):
+            for v in x:
+                walk(v)
+    walk(s)
+    if not has_ckw(s):
+        top["ckw"] = {"via": "entry", "as_keyword": True}
+    return s
 
 
 # ----------------------------------------------------------------------------------------------
@@ -700,6 +851,8 @@ class Sentinels:
         st = {"path": path, "cls": cls, "dec": self.decisive(cls, parent, absent), "fn": None, "amap": {}}
         dec = st["dec"]
         out = {"k": k, "cls": cls}
+        if s.get("ckw"):
+            out["ckw"] = s["ckw"]
         if k == "sel":
             cte = {}
             if s.get("with"):
@@ -1022,6 +1175,10 @@ def vendor_cases():
     # JSON document literals: the literal's text is the same token under every class (direct and around a sub-query)
     for c in CLS_NAMES:
         out.append({"vendor": "json-literal", "cls": c})
+    # statements STARTED with keyword arguments (as_keyword=True; dialect= on the generic class), through every entry point that
+    # forwards **kwargs, each between two plain statements of the same class
+    for c in CLS_NAMES:
+        out.append({"vendor": "ctor-kwargs", "cls": c})
     # ONE set of term / table objects embedded in statements of every class, rendered in varying orders (and pre-rendered
     # with str()): rendering is a pure function of the statement and the class, so the text must equal that of fresh objects
     for order in range(len(SHARED_ORDERS)):
@@ -1312,6 +1469,96 @@ def run_json(cls_name):
     return {"text": "", "meta": {}, "rows": rows, "unknown": [n for n in json_public_spellings() if n not in known]}
 
 
+_FORMS = re.compile(r"INTERVAL '[^']*'(?: (?!AS\b)[A-Z_]+)?|ARRAY\[|\[")
+
+
+def run_ctor(cls_name):
+    """rows [entry, request, text, plain text before, plain text after, text of the reference class]: the request is
+    as_keyword=True and / or (generic class only) dialect=D; the reference class is the stock class of dialect D, whose
+    Interval / Array syntax (quote-free tokens) the statement must show"""
+    from pypika import Table, AliasedQuery
+    from pypika.terms import Array, Interval
+    from pypika.enums import Dialects
+    X = qclass(cls_name)
+    t = Table("zt1")
+
+    def stmts(Q, kw):
+        iv = lambda: (t.field("zc9") + Interval(days=1)).as_("za1")    # noqa: E731   fresh terms for every statement
+        ar = lambda: Array(1, 2).as_("za2")         # noqa: E731
+        return [("from_", lambda: Q.from_(t, **kw).select(iv(), ar())),
+                ("select", lambda: Q.select(iv(), ar(), **kw)),
+                ("_builder", lambda: Q._builder(**kw).from_(t).select(iv(), ar())),
+                ("with_", lambda: Q.with_(Q.from_(t).select(iv(), ar()), "zw1", **kw).from_(AliasedQuery("zw1")).select(iv(), ar())),
+                ("into", lambda: Q.into(t, **kw).from_(t).select(iv(), ar())),
+                ("update", lambda: Q.update(t, **kw).set("zc1", Interval(days=1)).set("zc2", Array(1, 2)))]
+
+    def text(fn):
+        try:
+            return str(fn())
+        except Exception as e:  # noqa
+            return "!" + type(e).__name__ + ": " + str(e)
+    by_dialect = {}
+    for c in CLS_NAMES:
+        d = qclass(c)._builder().dialect
+        if d is not None:
+            by_dialect.setdefault(d.name, c)
+    requests = []
+    if cls_name not in CLS_DEFAULT_AS:
+        requests.append({"as_keyword": True})
+    if cls_name in CLS_TAKES_DIALECT:
+        for d in sorted(by_dialect):
+            requests.append({"dialect": d})
+            requests.append({"dialect": d, "as_keyword": True})
+    rows = []
+    for i, (entry, plain) in enumerate(stmts(X, {})):
+        for req in requests:
+            kw = dict(req)
+            if "dialect" in kw:
+                kw["dialect"] = getattr(Dialects, kw["dialect"])
+            before = text(plain)
+            got = text(stmts(X, kw)[i][1])
+            after = text(plain)
+            ref = text(stmts(qclass(by_dialect[req["dialect"]]), {})[i][1]) if "dialect" in req else before
+            rows.append([entry, req, got, before, after, ref])
+    return {"text": "", "meta": {}, "rows": rows}
+
+
+def ctor_oracle(cls, outcome):
+    out, seen = [], set()
+
+    def add(entry, what, msg):
+        if (entry, what) not in seen:
+            seen.add((entry, what))
+            out.append({"signature": ["C07", cls, cls, "vendor:ctor-kwargs", entry + "/" + what], "what": msg})
+
+    def words(text):
+        return [(k_, v_, q_) for k_, v_, q_ in lex(text) if not (k_ == "word" and v_.upper() == "AS")]
+
+    def n_as(text):
+        return sum(1 for k_, v_, _ in lex(text) if k_ == "word" and v_.upper() == "AS")
+    default_as = cls in CLS_DEFAULT_AS
+    for entry, req, got, before, after, ref in outcome.get("rows", []):
+        label = ", ".join("%s=%s" % kv for kv in sorted(req.items()))
+        if got.startswith("!") or before.startswith("!") or ref.startswith("!"):
+            add(entry, "exception", "%s.%s(..., %s) does not render: %s / %s / %s" % (cls, entry, label, got, before, ref))
+            continue
+        if before != after:
+            add(entry, "plain-changed", "a plain %s statement renders %r before and %r after a statement started with %s was rendered"
+                % (cls, before, after, label))
+        n_alias = len(re.findall(r"za\d", got))
+        structural = n_as(before) - (n_alias if default_as else 0)        # WITH name AS (...)
+        want = structural + (n_alias if (default_as or req.get("as_keyword")) else 0)
+        if n_as(got) != want:
+            add(entry, "as-keyword", "%s.%s(..., %s): %d AS keywords, %d expected (every alias is introduced %s AS): %s"
+                % (cls, entry, label, n_as(got), want, "with" if want > structural else "without", got))
+        if _FORMS.findall(got) != _FORMS.findall(ref):
+            add(entry, "dialect-forms", "%s.%s(..., %s) writes intervals / arrays as %r, the dialect asked for writes %r: %s  ||  %s"
+                % (cls, entry, label, _FORMS.findall(got), _FORMS.findall(ref), got, ref))
+        if "dialect" not in req and first_diff(words(got), words(before)) is not None:
+            add(entry, "tokens", "%s.%s(..., %s) differs from the plain statement in more than AS: %s  ||  %s" % (cls, entry, label, got, before))
+    return out
+
+
 def json_oracle(cls, outcome):
     out, seen = [], set()
     for n in outcome.get("unknown", []):
@@ -1473,6 +1720,8 @@ def run_vendor(case):
         return run_factory(case["cls"])
     if v == "json-literal":
         return run_json(case["cls"])
+    if v == "ctor-kwargs":
+        return run_ctor(case["cls"])
     if v == "clause-inventory":
         own, other = clause_inventory(case["cls"])
         covered = set()
@@ -1560,6 +1809,8 @@ def vendor_oracle(case, outcome):
     cls, v = case["cls"], case["vendor"]
     if v == "json-literal":
         return json_oracle(cls, outcome)
+    if v == "ctor-kwargs":
+        return ctor_oracle(cls, outcome)
     if v == "factory":
         out = []
         for route, label, got, ref in outcome.get("rows", []):
@@ -1655,7 +1906,12 @@ def run_impl(case):
             return {"text": "!" + type(e).__name__, "meta": {}}
     spec = relabel_spec(case["spec"], case.get("relabel"))
     kw = case.get("kw")
-    out = {"text": render(spec, kw)}
+    out = {}
+    if has_ckw(spec):
+        # the same statement started WITHOUT construction-time kwargs is built and rendered first: what one statement was
+        # started with must not leak into (or be pinned for) the next one
+        out["plain_text"] = render(strip_ckw(spec), kw)
+    out["text"] = render(spec, kw)
     if kw is None:
         out["rerender"] = rerender(spec)
     # oracle observations (independent of the model): the same specification with sentinel names
@@ -1680,6 +1936,11 @@ def to_coq(case, outcome):
         return None
     rl = case.get("relabel")
     kw = case.get("kw")
+    if kw is None and outer_ckw(relabel_spec(case["spec"], rl)).get("as_keyword"):
+        # a statement started with as_keyword=True is str()-rendered under its class's conventions with the AS keyword on: in
+        # the model that is the explicit-kwargs context (class literal / alias quotes, as_keyword=True), taken from the REQUEST
+        cc = class_conv(top_cls_name(relabel_spec(case["spec"], rl)))
+        kw = {"rest": [cc["sq"], cc["aq"], True]}
     return P(O(None if rl is None else CTOR[rl]), O(None if kw is None else kw_coq(kw)), qf.coq_query(case["spec"]),
              S(outcome["text"]))
 
@@ -1705,8 +1966,31 @@ def oracle(case, outcome):
     outer = top_cls_name(spec)
     kw = case.get("kw")
     out = list(pre)
+    asked_as = bool(outer_ckw(spec).get("as_keyword"))      # the outermost builder was started with as_keyword=True
+
+    def conv_of(c):
+        """the conventions of class c, with the AS keyword on when the outermost builder - were it of class c - is started
+        with as_keyword=True (the request, not what the object says)"""
+        cv = class_conv(c)
+        cv["as"] = cv["as"] or bool(outer_ckw(relabel_spec(spec, c)).get("as_keyword"))
+        return cv
+    if "plain_text" in outcome and not outcome["plain_text"].startswith("!") and not outcome["text"].startswith("!"):
+        # construction-time kwargs change nothing but the AS keyword (the dialects offered have no effect on these statements)
+        def no_as(text):
+            return [(k_, v_, q_) for k_, v_, q_ in lex(text) if not (k_ == "word" and v_.upper() == "AS")]
+        d = first_diff(no_as(outcome["text"]), no_as(outcome["plain_text"]))
+        if d is not None:
+            out.append({"signature": ["C07", outer, "-", "construction-kwargs", "tokens"],
+                        "what": "started with construction-time kwargs the statement differs from the plain one in more than AS, at token "
+                                "%d: %r vs %r; %s  ||  %s" % (d[0], d[1], d[2], outcome["text"][:300], outcome["plain_text"][:300])})
+        n_as = sum(1 for k_, v_, _ in lex(outcome["text"]) if k_ == "word" and v_.upper() == "AS")
+        n_as0 = sum(1 for k_, v_, _ in lex(outcome["plain_text"]) if k_ == "word" and v_.upper() == "AS")
+        if not asked_as and n_as != n_as0:
+            out.append({"signature": ["C07", outer, "-", "construction-kwargs", "as-keyword"],
+                        "what": "the outermost statement was not started with as_keyword=True, yet the AS keywords differ from the plain "
+                                "statement's: %s  ||  %s" % (outcome["text"][:300], outcome["plain_text"][:300])})
     if kw is None:
-        out += sentinel_report(outcome["sent_text"], meta, class_conv(outer), outer)
+        out += sentinel_report(outcome["sent_text"], meta, conv_of(outer), outer)
     else:
         conv = kw_conv(outer, kw)
         rep = sentinel_report(outcome["sent_text"], meta, conv, "explicit-kwargs", check_qalias=False, collapse=True)
@@ -1722,7 +2006,7 @@ def oracle(case, outcome):
         if txt.startswith("!"):
             continue
         cmeta = {k: (r, pk, c, c, c) for k, (r, pk, _, _, _) in meta.items()}
-        out += sentinel_report(txt, cmeta, class_conv(c), c)
+        out += sentinel_report(txt, cmeta, conv_of(c), c)
         if ref is not None and not ref.startswith("!") and c != "Query":
             d = first_diff(devendor(txt, kind), devendor(ref, kind))
             if d is not None:
@@ -1787,7 +2071,7 @@ def nontrivial_key(case):
     if "vendor" in case:
         return json.dumps(case, sort_keys=True)
     spec = relabel_spec(case["spec"], case.get("relabel"))
-    if len(_classes(spec)) > 1 or _has_func_content(spec) or case.get("kw"):
+    if len(_classes(spec)) > 1 or _has_func_content(spec) or case.get("kw") or has_ckw(spec):
         return json.dumps([spec, case.get("kw")], sort_keys=True)
     return None
 
@@ -1805,6 +2089,11 @@ def histogram(cases):
             h["cross-class"] = h.get("cross-class", 0) + 1
         if _has_func_content(c["spec"]):
             h["function-arg-content"] = h.get("function-arg-content", 0) + 1
+        if has_ckw(c["spec"]):
+            h["construction-kwargs"] = h.get("construction-kwargs", 0) + 1
+            for key in ("as_keyword", "dialect"):
+                if outer_ckw(relabel_spec(c["spec"], c.get("relabel"))).get(key):
+                    h["construction-kwargs:outer-" + key] = h.get("construction-kwargs:outer-" + key, 0) + 1
     return h
 
 
